@@ -31,12 +31,13 @@ const (
 	C07ActionNoIO   // action without input/output statement, augment of its implicit input/output
 	C07EmptyDir     // childless containers inside a grouping used at 2-3 places, augmented at some instances only
 	C07SharedUses   // collision family: the clashing children of two or three augments come from uses of ONE grouping
+	C07MultiRev     // a module (or a submodule) loaded in two or three revisions; the older revisions carry augments of their own
 	C07NumShapes    // number of shapes
 )
 
 // C07ShapeNames names the shapes (Distribution keys).
 var C07ShapeNames = [...]string{"mixed", "chain-worst", "chain-random", "uses-target", "choice-case", "rpc-notif", "collision",
-	"non-container", "missing", "body-error", "submodule", "body-variety", "implicit-case(outside-claim)", "sub-noprefix", "action-no-io", "childless-grouping-node", "collision-shared-grouping"}
+	"non-container", "missing", "body-error", "submodule", "body-variety", "implicit-case(outside-claim)", "sub-noprefix", "action-no-io", "childless-grouping-node", "collision-shared-grouping", "multi-revision"}
 
 // Expectations for one augment statement.
 const (
@@ -83,6 +84,8 @@ type C07Aug struct {
 	// SharedUses: one of two or three augments of one target whose clashing children all come from
 	// uses of the same grouping (the same statement nodes reach the target twice).
 	SharedUses bool `json:"shareduses,omitempty"`
+	// OldRevision: the statement is written in a revision of a module or submodule that is not the latest loaded one.
+	OldRevision bool `json:"oldrev,omitempty"`
 }
 
 // C07Set is a generated set plus knowledge.
@@ -140,7 +143,30 @@ type c07g struct {
 	// childless containers inside groupings that are used at several places (statement nodes)
 	empties   []*Node
 	wantEmpty bool
+	// revisions: modules/submodules that are loaded in several revisions. They are kept apart from
+	// mods: only revOp writes augments in them or aims at their trees.
+	wantRev   bool
+	revs      []*Module
+	revGroups [][]*Module                    // revisions of one name, oldest first
+	pins      map[*Module]map[*Module]string // importer/includer -> imported revision -> pinned date
 }
+
+// c07full is the name goyang files a module under (name@latest revision statement).
+func c07full(m *Module) string {
+	rev := ""
+	for _, r := range m.Revisions {
+		if r > rev {
+			rev = r
+		}
+	}
+	if rev == "" {
+		return m.Name
+	}
+	return m.Name + "@" + rev
+}
+
+// c07file: revisions of one module need different file names.
+func c07file(m *Module) string { return c07full(m) + ".yang" }
 
 func (g *c07g) chance(p float64) bool   { return g.r.Float64() < p }
 func (g *c07g) pick(ss []string) string { return ss[g.r.Intn(len(ss))] }
@@ -169,7 +195,11 @@ func (g *c07g) leaf(p *Node, name string) *Node {
 func GenerateC07(r *rand.Rand, shape int) *C07Set {
 	g := &c07g{r: r, set: &Set{}, byNS: map[string]*Module{}}
 	g.wantEmpty = shape == C07EmptyDir || (shape == C07Mixed && g.chance(0.35))
+	g.wantRev = shape == C07MultiRev || (shape == C07Mixed && g.chance(0.15))
 	g.modules(shape)
+	if g.wantRev {
+		g.revisions(shape)
+	}
 	g.groupings()
 	g.bases(shape)
 	g.work = g.forest()
@@ -192,6 +222,9 @@ func GenerateC07(r *rand.Rand, shape int) *C07Set {
 		if g.chance(0.12) {
 			g.op(C07SharedUses)
 		}
+		if g.wantRev {
+			g.op(C07MultiRev)
+		}
 		if g.chance(0.03) {
 			g.op(C07ImplicitCase)
 		}
@@ -204,8 +237,12 @@ func GenerateC07(r *rand.Rand, shape int) *C07Set {
 	case C07ChainWorst:
 		order = 0
 		g.op(shape)
-	case C07EmptyDir:
-		for i := 0; i < 1+r.Intn(2); i++ {
+	case C07EmptyDir, C07MultiRev:
+		n := 1 + r.Intn(2)
+		if shape == C07MultiRev {
+			n++
+		}
+		for i := 0; i < n; i++ {
 			g.op(shape)
 		}
 		if g.chance(0.4) {
@@ -231,7 +268,7 @@ func (g *c07g) modules(shape int) {
 	switch {
 	case shape == C07ChainWorst || shape == C07ChainRandom:
 		nm = 2 + r.Intn(3)
-	case g.chance(0.1) && shape != C07EmptyDir:
+	case g.chance(0.1) && shape != C07EmptyDir && !g.wantRev:
 		nm = 1
 	}
 	names := []string{"a", "b", "c", "d"}
@@ -288,7 +325,7 @@ func (g *c07g) modules(shape int) {
 		}
 	}
 	g.set.Mods = append(g.set.Mods, subs...)
-	g.mods = g.set.Mods
+	g.mods = append([]*Module{}, g.set.Mods...)
 	// load order of the base set: random
 	r.Shuffle(len(g.set.Mods), func(i, j int) { g.set.Mods[i], g.set.Mods[j] = g.set.Mods[j], g.set.Mods[i] })
 }
@@ -327,6 +364,11 @@ func (g *c07g) groupings() {
 
 // visible lists (reference text, grouping) usable from m (same rule as schema.go).
 func (g *c07g) visible(m *Module) (refs []string, grs []*Node) {
+	if m.Sub && len(m.Revisions) > 0 {
+		// a submodule revision that its module does not include has unlinked imports: a uses of an
+		// imported module's grouping is an "unknown group" error there (reported; not C07's subject)
+		return
+	}
 	for _, gr := range m.Groupings {
 		refs, grs = append(refs, gr.Arg), append(grs, gr)
 		if g.chance(0.3) {
@@ -465,6 +507,243 @@ func (g *c07g) bases(shape int) {
 		n := 1 + g.r.Intn(2)
 		for i := 0; i < n; i++ {
 			g.feature(m, g.r.Intn(8))
+		}
+	}
+}
+
+// revisions adds modules that are loaded in several revisions at once: module "ext" in two or three
+// revisions (every other module imports one of them: the latest by a plain import, or a pinned one
+// with revision-date), and/or a submodule "<m>-r" of a regular module in two revisions (the module
+// includes one of them; the other one is loaded all the same). What was verified on the real code and
+// is relied upon: a path with the own prefix or without prefix written in a revision leads into that
+// revision's own tree; a path with the prefix of an import leads into the revision that import
+// resolves to; the augments of every loaded revision of a module or submodule are applied (for a
+// submodule revision also when its module includes another revision), the nodes of a submodule
+// revision reach the module's tree only when it is the included one.
+func (g *c07g) revisions(shape int) {
+	g.pins = map[*Module]map[*Module]string{}
+	pin := func(m, o *Module, date string) {
+		if g.pins[m] == nil {
+			g.pins[m] = map[*Module]string{}
+		}
+		g.pins[m][o] = date
+	}
+	var regular []*Module
+	for _, m := range g.mods {
+		if !m.Sub {
+			regular = append(regular, m)
+		}
+	}
+	dates := []string{"2019-06-01", "2020-01-01", "2021-01-01"}
+	kind := g.r.Intn(10) // 0-5 module, 6-7 submodule, 8-9 both
+	if kind < 6 || kind >= 8 {
+		n := 2
+		if g.chance(0.25) {
+			n = 3
+		}
+		var grp []*Module
+		for i := 0; i < n; i++ {
+			d := dates[len(dates)-n+i]
+			e := &Module{Name: "ext", Prefix: "pext", Namespace: "urn:ext", ImportPrefix: map[*Module]string{}, Revisions: []string{d}}
+			if i > 0 && g.chance(0.5) {
+				e.Revisions = append(e.Revisions, dates[len(dates)-n+i-1]) // a newer file may list the older dates too
+			}
+			e.Body = &Node{Kw: "module", Arg: "ext"}
+			for _, o := range regular {
+				e.Imports = append(e.Imports, o)
+				e.ImportPrefix[o] = o.Prefix
+			}
+			// every revision has the container extown (same name, a tree of its own each) and something of its own
+			own := e.Body.add("container", "extown")
+			g.leaf(own, "extleaf")
+			g.leaf(own.add("container", g.name("c", e)), g.name("f", e))
+			grp = append(grp, e)
+		}
+		// importers: the latest by a plain import, or one pinned revision
+		pinnedOld := false
+		for k, m := range regular {
+			r := grp[len(grp)-1]
+			date := ""
+			if g.chance(0.4) || (!pinnedOld && k == len(regular)-1) {
+				r = grp[g.r.Intn(len(grp))]
+				if k == len(regular)-1 && !pinnedOld {
+					r = grp[g.r.Intn(len(grp)-1)]
+				}
+				date = r.Revisions[0]
+				if r != grp[len(grp)-1] {
+					pinnedOld = true
+				}
+			}
+			pfx := "pext"
+			if g.chance(0.15) {
+				pfx = "qext"
+			}
+			for _, im := range g.mods {
+				if c07owner(im) == m {
+					im.Imports = append(im.Imports, r)
+					im.ImportPrefix[r] = pfx
+					if date != "" {
+						pin(im, r, date)
+					}
+				}
+			}
+		}
+		g.revGroups = append(g.revGroups, grp)
+		g.revs = append(g.revs, grp...)
+	}
+	if kind >= 6 {
+		m := regular[g.r.Intn(len(regular))]
+		var grp []*Module
+		for i := 0; i < 2; i++ {
+			d := dates[1+i]
+			sm := &Module{Name: m.Name + "-r", Prefix: m.Prefix, Namespace: m.Namespace, Sub: true, Owner: m, ImportPrefix: map[*Module]string{},
+				Revisions: []string{d}}
+			sm.Body = &Node{Kw: "submodule", Arg: sm.Name}
+			for _, o := range m.Imports {
+				sm.Imports = append(sm.Imports, o)
+				sm.ImportPrefix[o] = m.ImportPrefix[o]
+				if dt := g.pins[m][o]; dt != "" {
+					pin(sm, o, dt)
+				}
+			}
+			g.leaf(sm.Body.add("container", g.name("c", sm)), g.name("f", sm))
+			grp = append(grp, sm)
+		}
+		inc := grp[1]
+		if g.chance(0.5) {
+			inc = grp[g.r.Intn(2)]
+			pin(m, inc, inc.Revisions[0])
+		}
+		m.Includes = append(m.Includes, inc)
+		g.revGroups = append(g.revGroups, grp)
+		g.revs = append(g.revs, grp...)
+	}
+	g.set.Mods = append(g.set.Mods, g.revs...)
+	g.r.Shuffle(len(g.set.Mods), func(i, j int) { g.set.Mods[i], g.set.Mods[j] = g.set.Mods[j], g.set.Mods[i] })
+}
+
+// candsIn lists the augmentable nodes of one module tree of the working forest.
+func (g *c07g) candsIn(m *Module) []c07cand {
+	var out []c07cand
+	root := g.work[c07full(m)]
+	if root == nil {
+		return nil
+	}
+	for _, k := range root.kids {
+		k.walk(func(n *c07sn) {
+			if n.flagged(func(x *c07sn) bool { return x.noTarget }) || n.shorthandOnPath() || !c07augmentable(n) {
+				return
+			}
+			out = append(out, c07cand{m, n})
+		})
+	}
+	return out
+}
+
+// revOp: augments written in the revisions of one name, the older ones above all.
+func (g *c07g) revOp() {
+	name := C07ShapeNames[C07MultiRev]
+	if len(g.revGroups) == 0 {
+		return
+	}
+	grp := g.revGroups[g.r.Intn(len(g.revGroups))]
+	old := grp[g.r.Intn(len(grp)-1)]
+	latest := grp[len(grp)-1]
+	sub := old.Sub
+	// targets in the trees of the regular modules; for a submodule revision not the nodes that come from submodules
+	target := func() (c07cand, bool) {
+		return g.anyTarget(func(n *c07sn) bool {
+			return !(sub && n.flagged(func(x *c07sn) bool { return x.viaSub }))
+		})
+	}
+	mode := func() int { return g.r.Intn(2) } // the first step always carries a prefix
+	noTarget := func(c c07cand, a *c07aug) {
+		c.n.walk(func(x *c07sn) {
+			if x.aug == a.info.ID {
+				x.noTarget = true
+			}
+		})
+	}
+	k := g.r.Intn(12)
+	switch {
+	case k <= 1: // (a) into the tree of another module
+		if c, ok := target(); ok {
+			g.augOn(old, c, name, mode(), g.body(old, false))
+		}
+	case k <= 3 && !sub: // (b) into its own tree, own prefix or none; sometimes the latest does the same in its tree
+		if cs := g.candsIn(old); len(cs) > 0 {
+			g.augOn(old, cs[g.r.Intn(len(cs))], name, g.r.Intn(3), g.body(old, false))
+		}
+		if g.chance(0.5) {
+			if cs := g.candsIn(latest); len(cs) > 0 {
+				g.augOn(latest, cs[g.r.Intn(len(cs))], name, g.r.Intn(3), g.body(latest, false))
+			}
+		}
+	case k == 4: // (c) a target that does not exist: reported in the old revision's file
+		if c, ok := target(); ok {
+			steps := append(append([]string{}, c.n.names()...), "nosuch")
+			arg := g.pathArg(old, c.n, 0) + "/" + g.prefixFor(old, c.mod.Namespace) + ":nosuch"
+			a := g.newAug(old, c.mod, steps, arg, name)
+			g.leaf(a.stmt, g.augName(old))
+		}
+	case k <= 7: // (d) first link of a chain that a regular module continues (one that pins this revision if there is one)
+		c, ok := target()
+		if !ok {
+			return
+		}
+		a := g.augOn(old, c, name, mode(), g.body(old, true))
+		nx := g.cands(false, func(n *c07sn) bool {
+			return c07augmentable(n) && n.flagged(func(x *c07sn) bool { return x.aug == a.info.ID })
+		})
+		if len(nx) == 0 {
+			return
+		}
+		w := g.writer(nil)
+		for _, m := range g.mods {
+			if g.pins[m][old] != "" && g.chance(0.7) {
+				w = m
+			}
+		}
+		c2 := nx[g.r.Intn(len(nx))]
+		g.augOn(w, c2, name, g.pathMode(w, c2), g.body(w, false))
+	case k <= 9: // (e) old and latest augment one target with different child names
+		if c, ok := target(); ok {
+			g.augOn(old, c, name, mode(), g.body(old, false))
+			g.augOn(latest, c, name, mode(), g.body(latest, false))
+		}
+	case k == 10: // (f) old and latest add the same child name: collision
+		c, ok := g.anyTarget(func(n *c07sn) bool {
+			return n.kw != "choice" && !(sub && n.flagged(func(x *c07sn) bool { return x.viaSub }))
+		})
+		if !ok {
+			return
+		}
+		g.seq++
+		dup := fmt.Sprintf("dup%d", g.seq)
+		for _, w := range []*Module{old, latest} {
+			w := w
+			a := g.augOn(w, c, name, mode(), func(a *Node, t *c07sn) {
+				if g.chance(0.4) {
+					g.leaf(a, g.augName(w))
+				}
+				g.leaf(a, dup)
+			})
+			noTarget(c, a)
+		}
+	default: // (g) a regular module aims at the tree of the revision its import resolves to
+		if sub {
+			if c, ok := target(); ok {
+				g.augOn(old, c, name, mode(), g.body(old, false))
+			}
+			return
+		}
+		w := g.writer(nil)
+		for _, r := range w.Imports {
+			if r.Name == old.Name {
+				if cs := g.candsIn(r); len(cs) > 0 {
+					g.augOn(w, cs[g.r.Intn(len(cs))], name, mode(), g.body(w, false))
+				}
+			}
 		}
 	}
 }
@@ -725,7 +1004,7 @@ func (n *c07sn) walk(f func(*c07sn)) {
 // forest builds the module trees (own body plus included submodules, each once) from the statements.
 func (g *c07g) forest() map[string]*c07sn {
 	out := map[string]*c07sn{}
-	for _, m := range g.mods {
+	for _, m := range g.set.Mods {
 		if m.Sub {
 			continue
 		}
@@ -750,7 +1029,7 @@ func (g *c07g) forest() map[string]*c07sn {
 		for _, s := range m.Includes {
 			inc(s)
 		}
-		out[m.Name] = root
+		out[c07full(m)] = root
 	}
 	return out
 }
@@ -821,7 +1100,7 @@ func (g *c07g) cands(shorthand bool, ok func(*c07sn) bool) []c07cand {
 		if m.Sub {
 			continue
 		}
-		root := g.work[m.Name]
+		root := g.work[c07full(m)]
 		for _, k := range root.kids {
 			k.walk(func(n *c07sn) {
 				if n.flagged(func(x *c07sn) bool { return x.noTarget }) {
@@ -848,11 +1127,15 @@ func c07augmentable(n *c07sn) bool {
 }
 
 func (g *c07g) prefixFor(w *Module, ns string) string {
-	t := g.byNS[ns]
-	if t == c07owner(w) {
+	if c07owner(w).Namespace == ns {
 		return w.Prefix
 	}
-	return w.ImportPrefix[t]
+	for _, o := range w.Imports {
+		if o.Namespace == ns {
+			return w.ImportPrefix[o]
+		}
+	}
+	return "zz"
 }
 
 // pathArg renders the path of n as written in w. mode 0: every step prefixed; 1: prefix left out on
@@ -888,10 +1171,17 @@ func (g *c07g) writer(except *Module) *Module {
 // newAug registers an augment of w with the given target argument.
 func (g *c07g) newAug(w *Module, tmod *Module, steps []string, arg, shape string) *c07aug {
 	a := &c07aug{writer: w, tmod: tmod, steps: steps, stmt: &Node{Kw: "augment", Arg: arg}, created: len(g.augs)}
-	a.info = &C07Aug{ID: len(g.augs), File: w.FileName(), Module: w.Name, Owner: c07owner(w).Name, NS: c07owner(w).Namespace,
+	a.info = &C07Aug{ID: len(g.augs), File: c07file(w), Module: w.Name, Owner: c07owner(w).Name, NS: c07owner(w).Namespace,
 		TargetArg: arg, Shape: shape}
 	if tmod != nil {
-		a.info.TargetModule = tmod.Name
+		a.info.TargetModule = c07full(tmod)
+	}
+	for _, grp := range g.revGroups {
+		for _, r := range grp[:len(grp)-1] {
+			if r == w {
+				a.info.OldRevision = true
+			}
+		}
 	}
 	g.augs = append(g.augs, a)
 	return a
@@ -1136,6 +1426,8 @@ func (g *c07g) op(shape int) {
 		g.emptyOp()
 	case C07SharedUses:
 		g.sharedCollision()
+	case C07MultiRev:
+		g.revOp()
 	case C07Collision:
 		if g.chance(0.2) {
 			g.sharedCollision()
@@ -1593,7 +1885,15 @@ func c07line(sb *strings.Builder, n *Node) {
 
 // C07Render renders module m: header, body (multi-line), then every augment statement of
 // augs on one line each. It returns the text and the line number of the first augment.
-func C07Render(m *Module, augs []*Node) (string, int) {
+func C07Render(m *Module, augs []*Node, pins ...map[*Module]string) (string, int) {
+	pin := func(o *Module) string {
+		for _, p := range pins {
+			if d := p[o]; d != "" {
+				return " revision-date " + d + ";"
+			}
+		}
+		return ""
+	}
 	var sb strings.Builder
 	kw := "module"
 	if m.Sub {
@@ -1606,10 +1906,19 @@ func C07Render(m *Module, augs []*Node) (string, int) {
 		fmt.Fprintf(&sb, "  namespace %q;\n  prefix %s;\n", m.Namespace, m.Prefix)
 	}
 	for _, o := range m.Imports {
-		fmt.Fprintf(&sb, "  import %s { prefix %s; }\n", o.Name, m.ImportPrefix[o])
+		fmt.Fprintf(&sb, "  import %s { prefix %s;%s }\n", o.Name, m.ImportPrefix[o], pin(o))
 	}
 	for _, s := range m.Includes {
-		fmt.Fprintf(&sb, "  include %s;\n", s.Name)
+		if p := pin(s); p != "" {
+			fmt.Fprintf(&sb, "  include %s {%s }\n", s.Name, p)
+		} else {
+			fmt.Fprintf(&sb, "  include %s;\n", s.Name)
+		}
+	}
+	revs := append([]string{}, m.Revisions...)
+	sort.Sort(sort.Reverse(sort.StringSlice(revs)))
+	for _, r := range revs {
+		fmt.Fprintf(&sb, "  revision %s;\n", r)
 	}
 	for _, c := range m.Body.Kids {
 		if c.Kw != "augment" {
@@ -1646,14 +1955,14 @@ func (g *c07g) finish(shape, order int) *C07Set {
 			stmts = append(stmts, a.stmt)
 			m.Body.Kids = append(m.Body.Kids, a.stmt)
 		}
-		text, first := C07Render(m, stmts)
+		text, first := C07Render(m, stmts, g.pins[m])
 		for i, a := range as {
 			a.info.Line = first + i
 		}
 		if len(as) > 0 {
-			s.AugBlocks[m.FileName()] = [2]int{first, len(as)}
+			s.AugBlocks[c07file(m)] = [2]int{first, len(as)}
 		}
-		s.names = append(s.names, m.FileName())
+		s.names = append(s.names, c07file(m))
 		s.texts = append(s.texts, text)
 	}
 	g.evaluate(s)
@@ -1676,7 +1985,7 @@ func (g *c07g) evaluate(s *C07Set) {
 			cnt(k)
 		}
 	}
-	for _, m := range g.mods {
+	for _, m := range g.set.Mods {
 		cnt(m.Body)
 	}
 	target := map[int]*c07sn{}
@@ -1707,7 +2016,7 @@ func (g *c07g) evaluate(s *C07Set) {
 				rest = append(rest, a)
 				continue
 			}
-			t := c07resolve(forest[a.tmod.Name], a.steps)
+			t := c07resolve(forest[c07full(a.tmod)], a.steps)
 			if t == nil {
 				rest = append(rest, a)
 				continue
@@ -1792,7 +2101,7 @@ func (g *c07g) evaluate(s *C07Set) {
 				x = x.kids[0]
 			}
 			if x.aug == a.info.ID {
-				a.info.Nodes = append(a.info.Nodes, C07Node{Mod: a.tmod.Name, Path: x.path(), NS: a.info.NS})
+				a.info.Nodes = append(a.info.Nodes, C07Node{Mod: c07full(a.tmod), Path: x.path(), NS: a.info.NS})
 			}
 		}
 	}
